@@ -1,8 +1,38 @@
 package main
 
+// C17: encoders / decoders / inverse operations round-trip.  Every pair of FQL
+// functions is run through compiled one-line queries on an adversarial string
+// pool plus seeded random strings, on JSON-domain values and on dates across
+// the years 1..9999; the property's predicate is evaluated on the
+// implementation's output (did the round trip return the original? is the
+// second application equal to the first?) and written, with the cases, into
+// cases<k>.v, where the Coq model predicts for each case whether the round
+// trip must hold.  Intermediate results (encoded texts, DATE_ADD results,
+// renderings) are sent as well and feed a drift diagnostic only.
+//
+// With -repo the command runs in fact mode (see facts.go).
+
 import (
+	"bufio"
+	"context"
+	"encoding/hex"
 	"flag"
+	"fmt"
+	"math"
+	"math/rand"
 	"os"
+	"path/filepath"
+	"strings"
+	"time"
+	"unicode/utf8"
+
+	. "verif/harness/common"
+
+	"github.com/MontFerret/ferret/pkg/compiler"
+	"github.com/MontFerret/ferret/pkg/runtime"
+	"github.com/MontFerret/ferret/pkg/runtime/core"
+	"github.com/MontFerret/ferret/pkg/runtime/values"
+	"github.com/MontFerret/ferret/pkg/runtime/values/types"
 )
 
 func main() {
@@ -16,4 +46,731 @@ func main() {
 			return
 		}
 	}
+	out, tier, seed, _ := Args()
+	runC17(out, tier, seed)
+}
+
+// ---------------------------------------------------------------- the runner
+
+// taker lets a query hand run-time values to the harness without a JSON round
+// trip (invalid UTF-8, exact instants): TAKE(x) records x and returns it.
+type runner struct {
+	c     *compiler.Compiler
+	taken []core.Value
+	vals  []core.Value
+	progs map[string]*runtime.Program
+}
+
+func newRunner() *runner {
+	r := &runner{c: compiler.New(), progs: map[string]*runtime.Program{}}
+	Must(r.c.RegisterFunction("TAKE", func(_ context.Context, args ...core.Value) (core.Value, error) {
+		r.taken = append(r.taken, args[0])
+		return args[0], nil
+	}))
+	Must(r.c.RegisterFunction("V", func(_ context.Context, args ...core.Value) (core.Value, error) {
+		return r.vals[int(args[0].(values.Int))], nil
+	}))
+	return r
+}
+
+// run executes the query; it returns the values handed to TAKE, the JSON
+// output and whether the run completed without error or panic.
+func (r *runner) run(q string, params map[string]interface{}) (taken []core.Value, out []byte, ok bool) {
+	p, found := r.progs[q]
+	if !found {
+		var err error
+		p, err = r.c.Compile(q)
+		Must(err)
+		r.progs[q] = p
+	}
+	r.taken = nil
+	defer func() {
+		if rec := recover(); rec != nil {
+			taken, out, ok = r.taken, nil, false
+		}
+	}()
+	opts := []runtime.Option{runtime.WithLog(Discard)}
+	for k, v := range params {
+		opts = append(opts, runtime.WithParam(k, v))
+	}
+	o, err := p.Run(context.Background(), opts...)
+	return r.taken, o, err == nil
+}
+
+func str(v core.Value) (string, bool) {
+	if v == nil || v.Type() != types.String {
+		return "", false
+	}
+	return string(v.(values.String)), true
+}
+
+// roundTrip runs LET e = TAKE(ENC(@s)) LET d = TAKE(DEC(e)) and reports the
+// encoded text and whether d == s.
+func (r *runner) roundTrip(enc, dec, s string) (encoded string, haveEnc, ok bool) {
+	tk, _, fin := r.run("LET e = TAKE("+enc+"(@s)) LET d = TAKE("+dec+"(e)) RETURN 1", map[string]interface{}{"s": s})
+	if len(tk) >= 1 {
+		encoded, haveEnc = str(tk[0])
+	}
+	if !fin || len(tk) != 2 {
+		return encoded, haveEnc, false
+	}
+	d, isStr := str(tk[1])
+	return encoded, haveEnc, isStr && d == s
+}
+
+// idem runs LET a = TAKE(F(@s)) LET b = TAKE(F(a)) and reports a and a == b.
+func (r *runner) idem(call1, call2 string, params map[string]interface{}) (first string, have, ok bool) {
+	tk, _, fin := r.run("LET a = TAKE("+call1+") LET b = TAKE("+call2+") RETURN 1", params)
+	if len(tk) >= 1 {
+		first, have = str(tk[0])
+	}
+	if !fin || len(tk) != 2 {
+		return first, have, false
+	}
+	b, isStr := str(tk[1])
+	return first, have, have && isStr && first == b
+}
+
+// ---------------------------------------------------------------- generators
+
+var fragments = []string{
+	"a", "b", "Z", "z", "0", "9", " ", "  ", "\t", "\n", "\r\n", "\x00", "\"", "\\", "'", "%", "%41", "%zz", "%2", "+", "&",
+	"&amp;", "&lt", "&#39;", "&#x27;", "&aacute;", "<", ">", ";", "#", ",", ",,", "::", ":", "ab", "x", "xx", "/", "?", "=", "~", "-", "_", ".",
+	"\\u0026", "\\n", "\\x41", "\\", "é", "É", "ß", "İ", "ı", "ǅ", "Σ", "ς", "ﬁ", "ῼ", "Ⅷ", "\u00a0", "\u2003", "\u3000", "\u0085", "\ufffd", "\u2028",
+	"😀", "𝒜", "𐐨", "\U0010ffff", "\xff", "\xc3", "\xe2\x82", "\xed\xa0\x80", "\xf8", "\x80", "\xc0\xaf", "日本", "д", "Ω",
+}
+
+func basePool() []string {
+	p := []string{"", "a", "abc", "hello world", "Hello, World!", "foobar", "fo", "foo", "f", " ", "  x  ", "\t x\n",
+		"\"", "a\"b", "\\", "a\\b", "a\\tb", "\\u0026", "say \"hi\"", "line1\nline2", "%", "100%", "a%20b", "%41", "%zz", "a+b", "a b",
+		"&", "a&b", "&amp;", "&amp;lt;", "&lt", "<script>alert('x')</script>", "<a href=\"x\">&</a>", "'", "&#39;", "&#34;", "&#x27;", "&aacute;",
+		",", ",a,,b,", "a,b,c", "::a::b::", "abab", "ababab", "aaa", "xxayxx", "xax", "x",
+		"é", "café", "CAFÉ", "Straße", "İstanbul", "ıi", "ǅ", "ΣΑΣ", "σας", "ﬁn", "ῼ", "Ⅷ", "日本語", "дом", "Ω",
+		"\u00a0x\u00a0", "\u3000x\u3000", "\u2003", "\u0085x", "\ufffd", "x\ufffd", "a\u2028b",
+		"😀", "a😀b", "𝒜𝒷", "𐐨𐐀", "\U0010ffff",
+		"\xff", "a\xffb", "\xc3", "\xc3(", "\xe2\x82", "\xed\xa0\x80", "\xf8\x88\x80\x80", "\x80", "\xc0\xaf", "ok\xe2\x82",
+		"\x00", "a\x00b", strings.Repeat("A", 100), strings.Repeat("ab,", 30), strings.Repeat("é", 40),
+		"https://example.com/a b?x=1&y=\"2\"#frag", "key=value&other=a+b%20c", "{\"a\":[1,2,{\"b\":null}]}",
+		"https://thedomain/alphabet=M&borough=Bronx&a=b",
+	}
+	return p
+}
+
+func randString(rng *rand.Rand) string {
+	var sb strings.Builder
+	n := rng.Intn(7)
+	for i := 0; i < n; i++ {
+		switch rng.Intn(10) {
+		case 0:
+			sb.WriteByte(byte(rng.Intn(256)))
+		case 1:
+			sb.WriteRune(rune(rng.Intn(0x3000)))
+		case 2:
+			sb.WriteByte(byte(32 + rng.Intn(95)))
+		default:
+			sb.WriteString(fragments[rng.Intn(len(fragments))])
+		}
+	}
+	return sb.String()
+}
+
+var sepPool = []string{",", "", " ", "ab", "::", "é", "a", "\n", "%", "&", "\xff", ",,", "😀", "x"}
+
+// cutsets: valid UTF-8, no U+FFFD (see Codec/Trim.v); nil = argument not given
+var cutPool = []*string{nil, sp(" "), sp("x"), sp("ab"), sp(" \t\n"), sp("é"), sp("éa"), sp("\u00a0"), sp("😀x"), sp(","), sp(""), sp("\"\\")}
+
+func sp(s string) *string { return &s }
+
+var unitNames = [][]string{
+	{"f", "millisecond", "milliseconds", "F"},
+	{"s", "second", "seconds", "S"},
+	{"i", "minute", "minutes", "Minute"},
+	{"h", "hour", "hours", "HOURS"},
+	{"d", "day", "days", "D"},
+	{"w", "week", "weeks", "Week"},
+}
+var unitNs = []int64{1e6, 1e9, 6e10, 36e11, 864e11, 6048e11}
+
+var zonePool = []int{0, 0, 0, 60, -120, 330, 345, -570, 840, -720, 1}
+
+const (
+	minSec = -62135596800 + 90000 // 0001-01-02T01:00:00Z
+	maxSec = 253402300799 - 90000 // 9999-12-30T22:59:59Z
+)
+
+func specialInstants() [][2]int64 {
+	var r [][2]int64
+	for _, s := range []string{
+		"0001-01-02T01:00:00Z", "0004-02-29T12:00:00Z", "0100-02-28T23:59:59Z", "0400-02-29T00:00:00Z",
+		"1582-10-15T00:00:00Z", "1600-02-29T23:59:59Z", "1899-12-31T23:59:59Z", "1900-02-28T23:59:59Z", "1900-03-01T00:00:00Z",
+		"1969-12-31T23:59:59Z", "1970-01-01T00:00:00Z", "1999-12-31T23:59:59Z", "2000-02-29T12:34:56Z", "2000-03-01T00:00:00Z",
+		"2001-01-31T00:00:00Z", "2023-04-30T23:59:59Z", "2024-02-29T23:59:59Z", "2024-12-31T23:59:59Z", "2038-01-19T03:14:08Z",
+		"2100-02-28T12:00:00Z", "2262-04-11T23:47:16Z", "2400-02-29T00:00:00Z", "9999-12-30T22:59:59Z", "5000-06-15T06:07:08Z",
+	} {
+		t, err := time.Parse(time.RFC3339, s)
+		Must(err)
+		r = append(r, [2]int64{t.Unix(), 0})
+	}
+	return r
+}
+
+var nsecPool = []int64{0, 0, 0, 1, 999999999, 500000000, 123456789, 1000, 100, 120000000, 999000000, 10}
+
+func randInstant(rng *rand.Rand, sp [][2]int64) (int64, int64) {
+	var sec int64
+	switch rng.Intn(4) {
+	case 0:
+		sec = sp[rng.Intn(len(sp))][0]
+	case 1: // recent
+		sec = 946684800 + rng.Int63n(1577836800)
+	default:
+		sec = minSec + rng.Int63n(maxSec-minSec)
+	}
+	ns := nsecPool[rng.Intn(len(nsecPool))]
+	if rng.Intn(3) == 0 {
+		ns = rng.Int63n(1000000000)
+	}
+	return sec, ns
+}
+
+var amountPool = []int64{0, 1, -1, 2, 7, 59, 60, 61, 1000, -1000, 86400, 1000000, -1000000, 999999, 106751, 106752, -106752, 15250, 15251, 500000, -3, 365, 366, 146097, 52}
+
+func mkTime(sec, ns int64, offMin int) time.Time {
+	t := time.Unix(sec, ns).UTC()
+	if offMin != 0 {
+		t = t.In(time.FixedZone("", offMin*60))
+	}
+	return t
+}
+
+// JSON-domain values: none, booleans, integers within +-2^53, finite floats,
+// valid-UTF-8 strings, arrays and objects of those.
+func jsonScalar(rng *rand.Rand, pool []string) core.Value {
+	switch rng.Intn(9) {
+	case 0:
+		return values.None
+	case 1:
+		return values.NewBoolean(rng.Intn(2) == 0)
+	case 2:
+		return values.NewInt(int(rng.Int63n(2001) - 1000))
+	case 3:
+		return values.NewInt([]int{0, 1, -1, 1 << 53, -(1 << 53), 1<<53 - 1, 1 << 31, 1000000}[rng.Intn(8)])
+	case 4:
+		return values.NewFloat(float64(rng.Int63n(4001)-2000) / 8)
+	case 5:
+		return values.NewFloat([]float64{0, math.Copysign(0, -1), 0.1, 1e21, 1e-7, 1e300, -1e300, 5e-324, math.MaxFloat64, 1.5, 123456789.125, 1e6}[rng.Intn(12)])
+	default:
+		for {
+			s := pool[rng.Intn(len(pool))]
+			if utf8.ValidString(s) {
+				return values.NewString(s)
+			}
+		}
+	}
+}
+
+func jsonValue(rng *rand.Rand, depth int, pool []string) core.Value {
+	if depth == 0 || rng.Intn(3) == 0 {
+		return jsonScalar(rng, pool)
+	}
+	n := rng.Intn(4)
+	if rng.Intn(2) == 0 {
+		xs := make([]core.Value, n)
+		for i := range xs {
+			xs[i] = jsonValue(rng, depth-1, pool)
+		}
+		return values.NewArrayWith(xs...)
+	}
+	o := values.NewObject()
+	for i := 0; i < n; i++ {
+		var k string
+		for {
+			k = pool[rng.Intn(len(pool))]
+			if utf8.ValidString(k) && len(k) < 40 {
+				break
+			}
+		}
+		o.Set(values.NewString(k), jsonValue(rng, depth-1, pool))
+	}
+	return o
+}
+
+// ---------------------------------------------------------------- Coq output
+
+func hxs(s string) string { return `(hx "` + hex.EncodeToString([]byte(s)) + `")` }
+
+func bitsChar(bs ...bool) byte {
+	n := 0
+	for i, b := range bs {
+		if b {
+			n |= 1 << uint(i)
+		}
+	}
+	return byte(48 + n)
+}
+
+type strObs struct {
+	s                      string
+	single                 byte
+	enc                    [5]string // base64, uri, html, upper, lower
+	haveEnc                bool
+	splitRow, trimRow      string
+	changed                bool // some encoder / case / trim changed the text, or a split had >= 2 pieces
+}
+
+type dateCase struct {
+	sec, ns int64
+	off     int
+	n       int64
+	unit    int
+	uname   string
+	obs     byte
+	addSec  int64
+	addNs   int64
+	haveAdd bool
+	diff    string
+}
+
+type rfcCase struct {
+	sec, ns int64
+	off     int
+	obs     byte
+	text    string
+	text2   string
+}
+
+func runC17(out, tier string, seed int64) {
+	rng := rand.New(rand.NewSource(seed))
+	nRandom, nDates, nRfc, nJSON, chunk, splitN, driftN := 330, 320, 320, 240, 230, 1 << 30, 1 << 30
+	if tier == "thorough" {
+		nRandom, nDates, nRfc, nJSON, chunk = 5000, 6000, 6000, 4000, 400
+	}
+	_ = splitN
+	_ = driftN
+	m := NewMeta("C17", tier, seed)
+	m.Rule = "cases = adversarial string pool + seeded random strings (fragments: quotes, backslashes, %, &, entities, separators, non-ASCII letters with case, Unicode spaces, astral runes, invalid UTF-8) x {base64, URI, HTML, UPPER, LOWER, SPLIT/CONCAT_SEPARATOR x separators, TRIM/LTRIM/RTRIM x cutsets}; JSON-domain values; dates in years 1..9999 (leap days, month ends, sub-second parts, zones) x amounts in [-10^6,10^6] x units ms,s,min,h,d,w; RFC 3339 renderings. One evaluation = one round trip / double application through a compiled query. Non-trivial = the first function changed its input (encoders, case, trim), the split produced >= 2 pieces, the amount is non-zero, the JSON value is not a scalar, the instant has a sub-second part or a zone; distinct = distinct (pair, input) texts"
+	r := newRunner()
+	distinct := map[string]struct{}{}
+	count := func(nontrivial bool, key string) {
+		m.Evaluations++
+		if nontrivial {
+			distinct[key] = struct{}{}
+		}
+	}
+
+	// ---- strings
+	pool := basePool()
+	seen := map[string]bool{}
+	for _, s := range pool {
+		seen[s] = true
+	}
+	for len(pool) < len(basePool())+nRandom {
+		s := randString(rng)
+		if !seen[s] {
+			seen[s] = true
+			pool = append(pool, s)
+		}
+	}
+	obs := make([]strObs, len(pool))
+	for i, s := range pool {
+		o := &obs[i]
+		o.s = s
+		switch {
+		case s == "":
+			m.Count("string:empty")
+		case !utf8.ValidString(s):
+			m.Count("string:invalid-utf8")
+		case isASCII(s):
+			m.Count("string:ascii")
+		default:
+			m.Count("string:unicode")
+		}
+		e1, h1, k1 := r.roundTrip("TO_BASE64", "FROM_BASE64", s)
+		e2, h2, k2 := r.roundTrip("ENCODE_URI_COMPONENT", "DECODE_URI_COMPONENT", s)
+		e3, h3, k3 := r.roundTrip("ESCAPE_HTML", "UNESCAPE_HTML", s)
+		e4, h4, k4 := r.idem("UPPER(@s)", "UPPER(a)", map[string]interface{}{"s": s})
+		e5, h5, k5 := r.idem("LOWER(@s)", "LOWER(a)", map[string]interface{}{"s": s})
+		o.single = bitsChar(k1, k2, k3, k4, k5)
+		o.enc = [5]string{e1, e2, e3, e4, e5}
+		o.haveEnc = h1 && h2 && h3 && h4 && h5
+		for pi, pr := range []struct {
+			name string
+			ok   bool
+			e    string
+		}{{"base64", k1, e1}, {"uri", k2, e2}, {"html", k3, e3}, {"upper", k4, e4}, {"lower", k5, e5}} {
+			count(pr.e != s, fmt.Sprintf("%d|%x", pi, s))
+			m.Count("pair:" + pr.name)
+			if !pr.ok {
+				m.Count("impl-predicate-false:" + pr.name)
+			}
+		}
+		// SPLIT / CONCAT_SEPARATOR
+		row := make([]byte, len(sepPool))
+		for j, sep := range sepPool {
+			tk, _, fin := r.run("LET p = TAKE(SPLIT(@s, @sep)) LET j = TAKE(CONCAT_SEPARATOR(@sep, p)) RETURN 1",
+				map[string]interface{}{"s": s, "sep": sep})
+			ok := false
+			pieces := 0
+			if len(tk) >= 1 && tk[0].Type() == types.Array {
+				pieces = int(tk[0].(*values.Array).Length())
+			}
+			if fin && len(tk) == 2 {
+				j, isStr := str(tk[1])
+				ok = isStr && j == s
+			}
+			row[j] = '0'
+			if ok {
+				row[j] = '1'
+			} else {
+				m.Count("impl-predicate-false:split-join")
+			}
+			count(pieces >= 2, fmt.Sprintf("split|%x|%x", s, sep))
+			m.Count("pair:split-join")
+		}
+		o.splitRow = string(row)
+		// TRIM / LTRIM / RTRIM
+		trow := make([]byte, len(cutPool))
+		for j, c := range cutPool {
+			var ks [3]bool
+			for fn, name := range []string{"TRIM", "LTRIM", "RTRIM"} {
+				var first string
+				var have bool
+				if c == nil {
+					first, have, ks[fn] = r.idem(name+"(@s)", name+"(a)", map[string]interface{}{"s": s})
+				} else {
+					first, have, ks[fn] = r.idem(name+"(@s, @c)", name+"(a, @c)", map[string]interface{}{"s": s, "c": *c})
+				}
+				cs := "<default>"
+				if c != nil {
+					cs = *c
+				}
+				count(have && first != s, fmt.Sprintf("trim%d|%x|%x", fn, s, cs))
+				m.Count("pair:" + strings.ToLower(name))
+				if !ks[fn] {
+					m.Count("impl-predicate-false:" + strings.ToLower(name))
+				}
+			}
+			trow[j] = bitsChar(ks[0], ks[1], ks[2])
+		}
+		o.trimRow = string(trow)
+	}
+
+	// ---- JSON stringify / parse
+	jsonVals := make([]core.Value, nJSON)
+	jsonText := make([]string, nJSON)
+	jsonObs := make([]byte, nJSON)
+	for i := range jsonVals {
+		jsonVals[i] = jsonValue(rng, 3, pool)
+	}
+	r.vals = jsonVals
+	for i, v := range jsonVals {
+		tk, _, fin := r.run("LET t = TAKE(JSON_STRINGIFY(V(@i))) LET p = TAKE(JSON_PARSE(t)) RETURN 1", map[string]interface{}{"i": i})
+		ok := false
+		if len(tk) >= 1 {
+			jsonText[i], _ = str(tk[0])
+		}
+		if fin && len(tk) == 2 {
+			ok = safeCompare(tk[1], v) == 0 && safeCompare(v, tk[1]) == 0
+		}
+		jsonObs[i] = '0'
+		if ok {
+			jsonObs[i] = '1'
+		} else {
+			m.Count("impl-predicate-false:json")
+		}
+		count(v.Type() == types.Array || v.Type() == types.Object, "json|"+jsonText[i])
+		m.Count("pair:json")
+		m.Count("json:" + v.Type().String())
+	}
+
+	// ---- dates
+	spi := specialInstants()
+	dates := make([]dateCase, 0, nDates)
+	for i := 0; i < nDates; i++ {
+		var d dateCase
+		if i < len(spi)*2 {
+			d.sec, d.ns = spi[i%len(spi)][0], nsecPool[rng.Intn(len(nsecPool))]
+		} else {
+			d.sec, d.ns = randInstant(rng, spi)
+		}
+		d.off = zonePool[rng.Intn(len(zonePool))]
+		if i < len(amountPool)*6 {
+			d.n, d.unit = amountPool[i%len(amountPool)], (i/len(amountPool))%6
+		} else {
+			d.unit = rng.Intn(6)
+			if rng.Intn(4) == 0 {
+				d.n = amountPool[rng.Intn(len(amountPool))]
+			} else if rng.Intn(3) == 0 {
+				d.n = rng.Int63n(2001) - 1000
+			} else {
+				d.n = rng.Int63n(2000001) - 1000000
+			}
+		}
+		d.uname = unitNames[d.unit][rng.Intn(len(unitNames[d.unit]))]
+		t := mkTime(d.sec, d.ns, d.off)
+		tk, _, fin := r.run("LET a = TAKE(DATE_ADD(@d, @n, @u)) LET b = TAKE(DATE_SUBTRACT(a, @n, @u)) LET x = TAKE(DATE_DIFF(@d, a, @u)) RETURN 1",
+			map[string]interface{}{"d": t, "n": d.n, "u": d.uname})
+		okAS, okDiff := false, false
+		if len(tk) >= 1 && tk[0].Type() == types.DateTime {
+			a := tk[0].(values.DateTime).Time
+			d.addSec, d.addNs, d.haveAdd = a.Unix(), int64(a.Nanosecond()), true
+		}
+		if fin && len(tk) == 3 {
+			if tk[1].Type() == types.DateTime {
+				okAS = tk[1].(values.DateTime).Time.Equal(t)
+			}
+			d.diff = tk[2].String()
+			if tk[2].Type() == types.Int {
+				okDiff = int64(tk[2].(values.Int)) == d.n
+			}
+		}
+		d.obs = bitsChar(okAS, okDiff)
+		dates = append(dates, d)
+		key := fmt.Sprintf("%d.%d|%d|%d", d.sec, d.ns, d.n, d.unit)
+		count(d.n != 0, "addsub|"+key)
+		count(d.n != 0, "diff|"+key)
+		m.Count("pair:date-add-subtract")
+		m.Count("pair:date-diff")
+		m.Count("unit:" + unitNames[d.unit][0])
+		if !okAS {
+			m.Count("impl-predicate-false:date-add-subtract")
+		}
+		if !okDiff {
+			m.Count("impl-predicate-false:date-diff")
+		}
+		switch {
+		case d.n < 0:
+			m.Count("amount:negative")
+		case d.n == 0:
+			m.Count("amount:zero")
+		default:
+			if float64(d.n)*float64(unitNs[d.unit]) > 9.223372036854775807e18 {
+				m.Count("amount:positive-beyond-292y")
+			} else {
+				m.Count("amount:positive")
+			}
+		}
+	}
+
+	// ---- RFC 3339
+	rfcs := make([]rfcCase, 0, nRfc)
+	for i := 0; i < nRfc; i++ {
+		var c rfcCase
+		if i < len(spi)*2 {
+			c.sec, c.ns = spi[i%len(spi)][0], nsecPool[(i/len(spi)+i)%len(nsecPool)]
+		} else {
+			c.sec, c.ns = randInstant(rng, spi)
+		}
+		c.off = zonePool[rng.Intn(len(zonePool))]
+		t := mkTime(c.sec, c.ns, c.off)
+		ok0, ok1 := false, false
+		_, o, fin := r.run("RETURN @d", map[string]interface{}{"d": t})
+		if fin {
+			c.text = strings.Trim(strings.TrimSpace(string(o)), "\"")
+			tk, _, fin2 := r.run("LET x = TAKE(DATE(@t)) RETURN 1", map[string]interface{}{"t": c.text})
+			if fin2 && len(tk) == 1 && tk[0].Type() == types.DateTime {
+				ok0 = tk[0].(values.DateTime).Time.Equal(t)
+			}
+		}
+		tk, _, fin := r.run("LET f = TAKE(DATE_FORMAT(@d, '2006-01-02T15:04:05.999999999Z07:00')) LET x = TAKE(DATE(f)) RETURN 1",
+			map[string]interface{}{"d": t})
+		if len(tk) >= 1 {
+			c.text2, _ = str(tk[0])
+		}
+		if fin && len(tk) == 2 && tk[1].Type() == types.DateTime {
+			ok1 = tk[1].(values.DateTime).Time.Equal(t)
+		}
+		c.obs = bitsChar(ok0, ok1)
+		rfcs = append(rfcs, c)
+		key := fmt.Sprintf("%d.%d|%d", c.sec, c.ns, c.off)
+		count(c.ns != 0 || c.off != 0, "rfc-json|"+key)
+		count(c.ns != 0 || c.off != 0, "rfc-format|"+key)
+		m.Count("pair:rfc3339")
+		if c.ns != 0 {
+			m.Count("rfc3339:sub-second")
+		}
+		if c.off != 0 {
+			m.Count("rfc3339:zone")
+		}
+		if !ok0 || !ok1 {
+			m.Count("impl-predicate-false:rfc3339")
+		}
+	}
+
+	// ---- write the case files
+	nChunks := (len(obs) + chunk - 1) / chunk
+	files := []string{}
+	index := map[string]interface{}{}
+	part := func(n, k int) (int, int) { // the k-th of nChunks slices of [0,n)
+		return n * k / nChunks, n * (k + 1) / nChunks
+	}
+	for k := 0; k < nChunks; k++ {
+		name := fmt.Sprintf("cases%d.v", k)
+		f, err := os.Create(filepath.Join(out, name))
+		Must(err)
+		w := bufio.NewWriterSize(f, 1<<20)
+		fmt.Fprintln(w, "From Ferret Require Import Check.C17.")
+		fmt.Fprintln(w, "Open Scope Z_scope.")
+		s0, s1 := part(len(obs), k)
+		sl := obs[s0:s1]
+		var sIdx []string
+		fmt.Fprintln(w, "Definition S : list bytes := [")
+		for i, o := range sl {
+			fmt.Fprintf(w, " %s%s\n", hxs(o.s), semi(i, len(sl)))
+			sIdx = append(sIdx, hex.EncodeToString([]byte(o.s)))
+		}
+		fmt.Fprintln(w, "].")
+		var sb strings.Builder
+		for _, o := range sl {
+			sb.WriteByte(o.single)
+		}
+		fmt.Fprintf(w, "Definition OS : string := \"%s\"%%string.\n", CoqEscape(sb.String()))
+		fmt.Fprintf(w, "Definition SEPS : list bytes := [%s].\n", joinMap(sepPool, hxs))
+		fmt.Fprintln(w, "Definition OSP : list string := [")
+		for i, o := range sl {
+			fmt.Fprintf(w, " \"%s\"%s\n", o.splitRow, semi(i, len(sl)))
+		}
+		w.WriteString("]%string.\n")
+		cuts := make([]string, len(cutPool))
+		for i, c := range cutPool {
+			if c == nil {
+				cuts[i] = "None"
+			} else {
+				cuts[i] = "Some " + hxs(*c)
+			}
+		}
+		fmt.Fprintf(w, "Definition CUTS : list (option bytes) := [%s].\n", strings.Join(cuts, "; "))
+		fmt.Fprintln(w, "Definition OTR : list string := [")
+		for i, o := range sl {
+			fmt.Fprintf(w, " \"%s\"%s\n", CoqEscape(o.trimRow), semi(i, len(sl)))
+		}
+		w.WriteString("]%string.\n")
+		j0, j1 := part(nJSON, k)
+		fmt.Fprintf(w, "Definition OJ : string := \"%s\"%%string.\n", string(jsonObs[j0:j1]))
+		d0, d1 := part(len(dates), k)
+		var dIdx []interface{}
+		fmt.Fprintln(w, "Definition D : list (Z * Z * Z * N) := [")
+		sb.Reset()
+		for i, d := range dates[d0:d1] {
+			fmt.Fprintf(w, " (%d, %d, %d, %d%%N)%s\n", d.sec, d.ns, d.n, d.unit, semi(i, d1-d0))
+			sb.WriteByte(d.obs)
+			dIdx = append(dIdx, map[string]interface{}{"date": mkTime(d.sec, d.ns, d.off).Format(time.RFC3339Nano), "sec": d.sec, "nsec": d.ns,
+				"amount": d.n, "unit": d.uname, "unit_code": d.unit, "diff": d.diff})
+		}
+		fmt.Fprintln(w, "].")
+		fmt.Fprintf(w, "Definition OD : string := \"%s\"%%string.\n", sb.String())
+		r0, r1 := part(len(rfcs), k)
+		var rIdx []interface{}
+		fmt.Fprintln(w, "Definition R : list (Z * Z * Z) := [")
+		sb.Reset()
+		for i, c := range rfcs[r0:r1] {
+			fmt.Fprintf(w, " (%d, %d, %d)%s\n", c.sec, c.ns, c.off, semi(i, r1-r0))
+			sb.WriteByte(c.obs)
+			rIdx = append(rIdx, map[string]interface{}{"sec": c.sec, "nsec": c.ns, "zone_minutes": c.off, "json_rendering": c.text, "date_format_rendering": c.text2})
+		}
+		fmt.Fprintln(w, "].")
+		fmt.Fprintf(w, "Definition OR : string := \"%s\"%%string.\n", sb.String())
+		fmt.Fprintln(w, "Definition M := Eval vm_compute in mismatches S OS SEPS OSP CUTS OTR OJ D OD R OR.")
+		fmt.Fprintln(w, "Print M.")
+		// drift diagnostic (not part of the verdict)
+		fmt.Fprintln(w, "Definition E : list (bytes * bytes * bytes * bytes * bytes) := [")
+		nE := 0
+		for _, o := range sl {
+			if !o.haveEnc {
+				break
+			}
+			nE++
+		}
+		for i, o := range sl[:nE] {
+			fmt.Fprintf(w, " (%s, %s, %s, %s, %s)%s\n", hxs(o.enc[0]), hxs(o.enc[1]), hxs(o.enc[2]), hxs(o.enc[3]), hxs(o.enc[4]), semi(i, nE))
+		}
+		fmt.Fprintln(w, "].")
+		fmt.Fprintln(w, "Definition A : list (Z * Z) := [")
+		nA := 0
+		for _, d := range dates[d0:d1] {
+			if !d.haveAdd {
+				break
+			}
+			nA++
+		}
+		for i, d := range dates[d0 : d0+nA] {
+			fmt.Fprintf(w, " (%d, %d)%s\n", d.addSec, d.addNs, semi(i, nA))
+		}
+		fmt.Fprintln(w, "].")
+		fmt.Fprintln(w, "Definition P : list bytes := [")
+		for i, c := range rfcs[r0:r1] {
+			fmt.Fprintf(w, " %s%s\n", hxs(c.text), semi(i, r1-r0))
+		}
+		fmt.Fprintln(w, "].")
+		fmt.Fprintln(w, "Definition DRIFT := Eval vm_compute in drift S E D A R P.")
+		fmt.Fprintln(w, "Print DRIFT.")
+		Must(w.Flush())
+		Must(f.Close())
+		files = append(files, name)
+		cutIdx := make([]interface{}, len(cutPool))
+		for i, c := range cutPool {
+			if c != nil {
+				cutIdx[i] = hex.EncodeToString([]byte(*c))
+			}
+		}
+		index[name] = map[string]interface{}{"S": sIdx, "seps": mapHex(sepPool), "cuts": cutIdx, "json": jsonText[j0:j1], "D": dIdx, "R": rIdx}
+	}
+	m.Files = files
+	m.Index = index
+	m.DistinctNontrivial = len(distinct)
+	for _, i := range []int{5, 16, 30, len(pool) - 1} {
+		o := obs[i]
+		m.Samples = append(m.Samples, map[string]interface{}{"string_hex": hex.EncodeToString([]byte(o.s)), "string": fmt.Sprintf("%q", o.s),
+			"to_base64": o.enc[0], "encode_uri_component": o.enc[1], "escape_html": o.enc[2], "upper": fmt.Sprintf("%q", o.enc[3]),
+			"predicates(base64,uri,html,upper,lower)": fmt.Sprintf("%05b", o.single-48), "split_row": o.splitRow})
+	}
+	for _, i := range []int{0, len(dates) / 2} {
+		d := dates[i]
+		m.Samples = append(m.Samples, map[string]interface{}{"date": mkTime(d.sec, d.ns, d.off).Format(time.RFC3339Nano), "amount": d.n, "unit": d.uname,
+			"date_add": time.Unix(d.addSec, d.addNs).UTC().Format(time.RFC3339Nano), "date_diff": d.diff, "predicates(addsub,diff)": fmt.Sprintf("%02b", d.obs-48)})
+	}
+	m.Samples = append(m.Samples, map[string]interface{}{"rfc3339_json_rendering": rfcs[len(rfcs)/2].text, "rfc3339_date_format": rfcs[len(rfcs)/2].text2,
+		"json_stringify": jsonText[len(jsonText)/2]})
+	m.Write(out)
+}
+
+func semi(i, n int) string {
+	if i == n-1 {
+		return ""
+	}
+	return ";"
+}
+
+func joinMap(xs []string, f func(string) string) string {
+	ps := make([]string, len(xs))
+	for i, x := range xs {
+		ps[i] = f(x)
+	}
+	return strings.Join(ps, "; ")
+}
+
+func mapHex(xs []string) []string {
+	ps := make([]string, len(xs))
+	for i, x := range xs {
+		ps[i] = hex.EncodeToString([]byte(x))
+	}
+	return ps
+}
+
+func isASCII(s string) bool {
+	for i := 0; i < len(s); i++ {
+		if s[i] >= 0x80 {
+			return false
+		}
+	}
+	return true
+}
+
+func safeCompare(a, b core.Value) (c int64) {
+	defer func() {
+		if r := recover(); r != nil {
+			c = 99
+		}
+	}()
+	return a.Compare(b)
 }
